@@ -368,9 +368,8 @@ open MagpyVerif.Level2
 
 /-- **`collection_is_sum_of_children` on the driver's carrier**: with the integer matrix operations, what a
 sensor pixel reads from a Collection is the sum of what it reads from each child, for any nesting, whenever the
-rotation matrices of the collection's leaves and of the sensor are octahedral.  (Only additivity of the matrix
-action is used by the argument, which every integer matrix has; the statement is obtained by transfer from the
-group `Oct`, hence the hypotheses.) -/
+rotation matrices of the collection's leaves and of the sensor are octahedral.  (Obtained by transfer from the group `Oct`, hence the
+hypotheses; `collection_is_sum_of_children_on_M3Int` below drops them: only additivity of the matrix action is used.) -/
 theorem collection_is_sum_of_children_on_driver_carrier
     (flipX : V3 Int → V3 Int) (hf : ∀ a b, flipX (a + b) = flipX a + flipX b) (h0 : flipX 0 = 0)
     (cs : List EntryZ) (k : SensZ) (hco : (Entry.coll cs : EntryZ).RotsOct) (hko : k.RotsOct)
@@ -381,6 +380,34 @@ theorem collection_is_sum_of_children_on_driver_carrier
   rw [← Entry.toM3_coll, specValue_at_Oct_eq_at_M3Int, List.map_map]
   simp only [Function.comp_def, specValue_at_Oct_eq_at_M3Int]
   exact collection_is_sum_of_children flipX hf h0 cs' k' m x
+
+/-- **`collection_is_sum_of_children` at `M3 Int` for ARBITRARY integer matrices**: the superposition statement
+uses nothing of the rotation carrier but additivity of the matrix action, which `M3.apply` has for every integer
+matrix (`M3.smul_add'`, `M3.smul_zero'`) — no orthogonality, no determinant condition, `⁻¹` is just the transpose.
+This is the full-strength form on the driver's carrier; the `…_on_driver_carrier` version above is its special case. -/
+theorem collection_is_sum_of_children_on_M3Int
+    (flipX : V3 Int → V3 Int) (hf : ∀ a b, flipX (a + b) = flipX a + flipX b) (h0 : flipX 0 = 0)
+    (cs : List EntryZ) (k : SensZ) (m : Nat) (x : V3 Int) :
+    specValueOp flipX (.coll cs) k m x = (cs.map fun c => specValueOp flipX c k m x).sum :=
+  specValueOp_coll_M3Int flipX hf h0 cs k m x
+
+-- non-vacuity of the arbitrary-matrix form: a shear (not orthogonal, det 1) and a scaling (det 8) as "orientations";
+-- both sides evaluated as the driver evaluates them
+example :
+    let shear : M3 Int := ⟨⟨1, 2, 0⟩, ⟨0, 1, 0⟩, ⟨0, 0, 1⟩⟩
+    let scale : M3 Int := ⟨⟨2, 0, 0⟩, ⟨0, 2, 0⟩, ⟨0, 0, 2⟩⟩
+    let c1 : EntryZ := .leaf ⟨[⟨1, 0, 0⟩], [shear], fun x => x + ⟨1, 0, 0⟩⟩
+    let c2 : EntryZ := .coll [.leaf ⟨[⟨0, 1, 0⟩], [scale], fun x => x + x⟩]
+    let k : SensZ := ⟨[⟨5, 0, 0⟩], [shear], [⟨0, 0, 0⟩], [1], true⟩
+    ¬ IsOct shear ∧ ¬ IsOct scale ∧
+    specValueOp Level2.DriverExample.drvFlip (.coll [c1, c2]) k 0 ⟨3, 4, 5⟩ =
+      specValueOp Level2.DriverExample.drvFlip c1 k 0 ⟨3, 4, 5⟩ + specValueOp Level2.DriverExample.drvFlip c2 k 0 ⟨3, 4, 5⟩ := by
+  intro shear scale c1 c2 k
+  refine ⟨by decide, by decide, ?_⟩
+  have h := collection_is_sum_of_children_on_M3Int Level2.DriverExample.drvFlip
+    (by intro a b; simp only [Level2.DriverExample.drvFlip, V3.add_def, V3.mk.injEq, and_true]; omega) (by decide)
+    [c1, c2] k 0 ⟨3, 4, 5⟩
+  simpa using h
 
 -- non-vacuity: the nested collection and the left-handed sensor of `Level2.DriverExample` (90° rotations about z
 -- and x, integer positions) and the driver's handedness flip meet every hypothesis
